@@ -25,7 +25,7 @@ type c03Params struct {
 	SlowEst   bool   // OnEstablished takes virtual time while UPDATEs are already arriving
 	SlowH     bool   // handler takes random virtual time
 	Partition string // how the byte stream is cut into writes
-	End       string // "" | fin | badhdr | notif : what follows the stream at once
+	End       string // "" | fin | badhdr | notif | finmid : what follows the stream at once
 	Seed      uint64
 	Hook      int
 }
@@ -143,13 +143,19 @@ func c03World(t *testing.T, p c03Params) rt.Result {
 			stream = append(stream, wire.RawHeader(make([]byte, 16), 19, 4)...)
 		case "notif":
 			stream = append(stream, wire.Notification(6, 0, nil)...)
+		case "finmid":
+			// the stream ends inside a message: the header announces more octets than
+			// follow before the FIN. What did arrive is not a message.
+			l := 8 + r.IntN(60)
+			m := wire.Update(make([]byte, l))
+			stream = append(stream, m[:19+r.IntN(l)]...)
 		}
 		if len(bounds) > 0 && bounds[0] == 0 {
 			bounds = bounds[1:]
 		}
 		rc.W.Log.Add("tx", ps.Addr.String(), rc.ID, fmt.Sprintf("stream of %d messages (%d UPDATEs, %d bytes) partition=%s", p.N, len(sent), len(stream), p.Partition), "")
 		rc.SendCuts(stream, c03Cuts(r, p.Partition, len(stream), bounds), time.Nanosecond)
-		if p.End == "fin" {
+		if p.End == "fin" || p.End == "finmid" {
 			rc.Pair.Configure(func(pp *memnet.Pair) { pp.WriteAfterPeerCloseOK = true })
 			rc.Close()
 		}
@@ -234,7 +240,7 @@ func TestC03(t *testing.T) {
 		if r.IntN(4) == 0 {
 			p.NotifAt = r.IntN(p.N)
 		} else if r.IntN(3) == 0 {
-			p.End = []string{"fin", "badhdr", "notif"}[r.IntN(3)]
+			p.End = []string{"fin", "badhdr", "notif", "finmid"}[r.IntN(4)]
 		}
 		if p.Partition == "bytes" && p.N > 12 {
 			p.N = 12 // 1-byte writes of large messages are slow; keep them short
